@@ -56,6 +56,8 @@ fn gen_exchange(r: &mut Rng) -> Exchange {
         _ => { head.extend_from_slice(format!("Content-Length: {}\r\n", body.len()).as_bytes()); coded.extend_from_slice(&body); }
     }
     let mut forbid = None;
+    // a Location field on a response that is not a redirect (201 Created, ...): an ordinary field
+    if !(300..400).contains(&status) && r.chance(1, 3) { head.extend_from_slice(b"Location: /created/7\r\n"); }
     if (300..400).contains(&status) && status != 304 {
         let loc_end = head_start + head.len() + b"Location: /next\r\n".len();
         head.extend_from_slice(b"Location: /next\r\n");
@@ -100,7 +102,7 @@ fn run_schedule(cx: &mut Ctx, ex: &Exchange, r: &mut Rng, mode: usize) {
                 if cx.op("keep100") == "bool false" || (gave_up && r.chance(1, 2)) { cx.op("proceed"); gave_up = false; continue; }
                 arrived = adjust(ex, (arrived + step_of(r)).min(ex.stream.len()));
                 let res = cx.op(&format!("read100 {}", hx(&ex.stream[soff..arrived])));
-                if let Some(n) = res.strip_prefix("count ") { soff += n.parse::<usize>().unwrap(); }
+                if let Some(n) = res.strip_prefix("count ") { soff += n.parse::<usize>().unwrap_or(0); }
                 if arrived >= ex.stream.len() && cx.op("keep100") == "bool true" { cx.op("proceed"); }
             }
             "sendBody" => {
@@ -112,7 +114,7 @@ fn run_schedule(cx: &mut Ctx, ex: &Exchange, r: &mut Rng, mode: usize) {
                     let cap = if chunked { cap_of(r).max(6) } else { cap_of(r) };
                     let res = cx.op(&format!("bwrite {} {}", hx(&ex.payload[boff..upto]), cap));
                     let p: Vec<&str> = res.split(' ').collect();
-                    if p[0] == "bytes" { boff += p[1].parse::<usize>().unwrap(); } else { return; }
+                    if p[0] == "bytes" { boff += p[1].parse::<usize>().unwrap_or(0); } else { return; }
                 } else {
                     if cx.op("canproceed") == "bool true" { cx.op("proceed"); continue; }
                     let cap = cap_of(r);
@@ -124,7 +126,7 @@ fn run_schedule(cx: &mut Ctx, ex: &Exchange, r: &mut Rng, mode: usize) {
                 let res = cx.op(&format!("resp {}", hx(&ex.stream[soff..arrived.max(soff)])));
                 let p: Vec<&str> = res.split(' ').collect();
                 if p[0] != "resp" { return; }
-                let n: usize = p[1].parse().unwrap();
+                let n: usize = p[1].parse().unwrap_or(0);
                 soff += n;
                 if p[2] != "none" { query(cx, r); cx.op("proceed"); }
                 else if n == 0 {
@@ -140,7 +142,7 @@ fn run_schedule(cx: &mut Ctx, ex: &Exchange, r: &mut Rng, mode: usize) {
                 let res = cx.op(&format!("bread {} {}", hx(&ex.stream[soff..arrived.max(soff)]), cap));
                 let p: Vec<&str> = res.split(' ').collect();
                 if p[0] != "bytes" { return; }
-                let n: usize = p[1].parse().unwrap();
+                let n: usize = p[1].parse().unwrap_or(0);
                 soff += n;
                 if n == 0 && p[2] == "-" {
                     if arrived >= ex.stream.len() {
